@@ -335,10 +335,7 @@ func init() {
 	V["IntOf32"] = V["IntOf"]
 	V["IntOf8"] = V["IntOf"]
 	V["IntOfI"] = func(c *Ctx, st *State, a []Value, site ssa.Instruction) Value {
-		t := termOf(a[0])
-		w := t.sort.W
-		// signed value = unsigned - 2^w * msb
-		return ISub(Bv2Int(t), IMul(Bv2Int(Extract(t, w-1, w-1)), IntC(pow2(w))))
+		return Bv2IntS(termOf(a[0]))
 	}
 	V["IntOfI8"] = V["IntOfI"]
 	V["IntOfI64"] = V["IntOfI"]
